@@ -11,6 +11,8 @@ CONSTANTS
   Detector = TRUE
   RetryLimit = 5
   AtomicRemove = TRUE
+  RemoveByHash = FALSE
+  LockedRemove = FALSE
   Contents = {0,1}
   FinLag = 3
   NoIdle = TRUE
